@@ -73,5 +73,13 @@ theorem shl_60 (x : Nat) : x <<< 60 = x * 1152921504606846976 := by have := shl 
 theorem shr_60 (x : Nat) : x >>> 60 = x / 1152921504606846976 := by have := shr x 60; simpa using this
 theorem shl_63 (x : Nat) : x <<< 63 = x * 9223372036854775808 := by have := shl x 63; simpa using this
 theorem shr_63 (x : Nat) : x >>> 63 = x / 9223372036854775808 := by have := shr x 63; simpa using this
+theorem shl_3 (x : Nat) : x <<< 3 = x * 8 := by have := shl x 3; simpa using this
+theorem shr_3 (x : Nat) : x >>> 3 = x / 8 := by have := shr x 3; simpa using this
+theorem shl_6 (x : Nat) : x <<< 6 = x * 64 := by have := shl x 6; simpa using this
+theorem shr_6 (x : Nat) : x >>> 6 = x / 64 := by have := shr x 6; simpa using this
+theorem shl_7 (x : Nat) : x <<< 7 = x * 128 := by have := shl x 7; simpa using this
+theorem shr_7 (x : Nat) : x >>> 7 = x / 128 := by have := shr x 7; simpa using this
+theorem shl_11 (x : Nat) : x <<< 11 = x * 2048 := by have := shl x 11; simpa using this
+theorem shr_11 (x : Nat) : x >>> 11 = x / 2048 := by have := shr x 11; simpa using this
 
 end J1939.Bits
